@@ -2,6 +2,7 @@
 from __future__ import annotations
 
 import copy
+import re
 import io
 import warnings
 import xml.etree.ElementTree as ET
@@ -20,7 +21,9 @@ RULE = (
     "positions of arbitrary aggregates (before the first child, between list members, after the last, inside empty aggregates): "
     "unknown data element, unknown empty element, unknown aggregate with generated content incl. complete subtrees of known "
     "classes, vendor-prefixed element / aggregate (INTU.BID, X.ACCTID, A.B.C), names that are other classes' tags (the root's "
-    "own tag OFX among them), unknown / vendor aggregates nested 24 levels deep; delivered "
+    "own tag OFX among them), unknown / vendor aggregates nested 24 levels deep, complete valid aggregates of other classes; plus "
+    "deterministic sweeps: well-known vendor elements first/last in every class, long lists (260/600 members), and whole "
+    "documents converted from <OFX> with every transaction wrapper misplaced in every other message set; delivered "
     "as element tree to Aggregate.from_etree and as XML and SGML text through OFXTree.parse().convert().  Oracle (metamorphic): "
     "conversion succeeds and equals the conversion of the uncontaminated document (which equals the source instance); the "
     "input tree is unchanged.  non-trivial = >=1 insertion not at the end of its parent, or an inserted aggregate, or a "
@@ -198,6 +201,8 @@ def check_case(case):
     H.setup_path()
     if case.get("kind") == "sweep":
         return check_sweep(case)
+    if case.get("kind") == "misplaced":
+        return check_misplaced(case)
     if case.get("kind") == "long":
         cls = M.universe()[case["cls"]]
         mt = sorted(M.member_types(cls).items())
@@ -316,6 +321,75 @@ def check_sweep(case):
     return out
 
 
+def message_sets():
+    U = M.universe()
+    return sorted(n for n in U if re.fullmatch(r"[A-Z0-9]+MSGSR[QS]V1", n) and not n.startswith("SIGNONMSGS"))
+
+
+def wrappers():
+    U = M.universe()
+    return sorted(n for n in U if re.fullmatch(r"[A-Z0-9]+TRNR[QS]", n))
+
+
+def _misplaced_doc(ms, host):
+    """Description of a whole document: <OFX> with a signon message set and the message set `ms` (host 0: empty,
+    host 1: with one member of its own)."""
+    U = M.universe()
+    d = ms[-3]  # Q / S
+    mt = sorted(M.member_types(U[ms]).items())
+    inner = M.minimal(U[ms], with_member=mt[0][1].__name__) if (host and mt) else M.minimal(U[ms])
+    return {"cls": "OFX", "kw": {"signonmsgsr%sv1" % d.lower(): M.minimal(U["SIGNONMSGSR%sV1" % d]), ms.lower(): inner}, "list": []}
+
+
+def check_misplaced(case):
+    """A whole document converted from its <OFX> root; inside one message set a complete, valid transaction wrapper that
+    belongs to another message set (a server that files card statements under the bank message set, ...).  The message
+    set declares no such member: it is unknown content there and is skipped like any other."""
+    U = M.universe()
+    out = []
+    with warnings.catch_warnings():
+        warnings.simplefilter("ignore")
+        desc = _misplaced_doc(case["ms"], case["host"])
+        clean = D.to_etree(desc)
+        dirty = copy.deepcopy(clean)
+        host = dirty.find(case["ms"])
+        node = D.to_etree(M.minimal(U[case["wrapper"]]))
+        host.insert(0 if case["where"] == "first" else len(host), node)
+        what = f"<{case['wrapper']}> as {case['where']} child of <{case['ms']}> (host variant {case['host']}) via {case['route']}"
+        try:
+            base = convert_via(case["route"], clean)
+        except Exception:
+            return []
+        try:
+            got = convert_via(case["route"], dirty)
+        except Exception as ex:
+            return [(f"rejected/misplaced-wrapper/{case['route']}", f"{what}: {ex!r}")]
+        df = M.model_diff(base, got)
+        if df or M.etree_dump(got.to_etree()) != M.etree_dump(base.to_etree()):
+            out.append((f"changed/misplaced-wrapper/{case['route']}", f"{what}: {df[:2]} / written tree differs"))
+    return out
+
+
+def _misplaced_worker(mss):
+    H.setup_path()
+    s = H.Stats()
+    U = M.universe()
+    wr = wrappers()
+    for ms in mss:
+        own = {t.__name__ for t in M.member_types(U[ms]).values()}
+        for host in (0, 1):
+            for i, w in enumerate(wr):
+                if w in own or w in declared_names(U[ms]):
+                    continue
+                for j, where in enumerate(("first", "last")):
+                    route = ("etree", "xml", "etree", "sgml")[(i + 2 * j + host) % 4]
+                    case = {"kind": "misplaced", "ms": ms, "wrapper": w, "where": where, "host": host, "route": route}
+                    s.case(case, nontrivial=True, labels=["misplaced wrapper in a whole document", "route " + route])
+                    for k, d in check_case(case):
+                        s.fail(k, case, d)
+    return s
+
+
 def _long_worker(names):
     """Aggregates with hundreds of list members (a year of transactions, a large security list): insertions directly inside
     the long list and inside one of its members."""
@@ -354,5 +428,7 @@ def run(ctx):
     listy = [n for n in names if M.has_list(M.universe()[n])]
     ctx.pmap(_long_worker, [listy[i::16] for i in range(16)])
     ctx.pmap(_vendor_sweep_worker, [names[i::16] for i in range(16)])
+    mss = message_sets()
+    ctx.pmap(_misplaced_worker, [mss[i::16] for i in range(16)])
     n = ctx.scale(8, 120)
     ctx.pmap(_worker, [(names[i::48], n, ctx.sub_seed("cls")) for i in range(48)])
